@@ -166,7 +166,15 @@ def r5(ctx):
         ctx.fail(b, 'dedup-count', 'number of special tokens is not taken from a HashSet (de-duplicated) of the tokens')
         return
     src = core(sym(b, lens[0].args[0]))
-    ctx.require(has(src, ('field', ANY, 'tokens')), b, 'dedup-count',
+    okc = has(src, ('field', ANY, 'tokens'))
+    if not okc:
+        # the set filled by a loop: every configured token is inserted, unconditionally
+        from analysis.seq import seq_of, ITEM as _IT
+        segs = seq_of(ctx.facts, b, sym(b, lens[0].args[0]))
+        okc = segs is not None and len(segs) == 1 and not segs[0].conds and has(core(segs[0].src), ('field', ANY, 'tokens')) and \
+            ((segs[0].kind == 'each' and core(segs[0].elem) == _IT) or
+             (segs[0].kind == 'nest' and len(segs[0].inner) == 1 and segs[0].inner[0].kind == 'one' and not segs[0].inner[0].conds and core(segs[0].inner[0].elem) == _IT))
+    ctx.require(okc, b, 'dedup-count',
                 'special token count = HashSet of special_config.tokens', 'count is over %s' % show_in(b, src), lens[0].span)
     adds = []
     for s in b.stmts():
